@@ -16,7 +16,7 @@ RULE = ("(1) natural runs of generated problems x budgets (design size + 0..100,
         "the running best per phase; optionally a scripted search proposal: evaluated point / incumbent / fresh mesh point). "
         "Oracles: independent call counter == func_count; calls <= max_fun_evals when the budget covers the design; design "
         "size within the reference bound; polls <= max_iter; termination message names a condition that holds; loop probe "
-        "bounds non-progress (no window of search_n_try+1 loop iterations without a target call or a poll). Non-trivial = run "
+        "bounds non-progress (no window of 2*search_n_try loop iterations without a target call or a poll). Non-trivial = run "
         "showing >= 3 controller classes (empty search set, successful search, incremental search, failed search, failed poll, "
         "successful poll, poll cut by budget, final re-sampling) or a scripted case whose script is not all-one-outcome.")
 ASSUMPTIONS = [
